@@ -138,6 +138,7 @@ pub fn materialise(case: &Case, oc: &mut OracleCache) -> Option<(Pool, RunSpec)>
                         ticks,
                         trace,
                         sensitive: false,
+                        text_id: 0,
                     });
                     idx.insert(c.clone(), i);
                     i
@@ -147,6 +148,7 @@ pub fn materialise(case: &Case, oc: &mut OracleCache) -> Option<(Pool, RunSpec)>
         }
         clients.push(cl);
     }
+    pool.assign_text_ids();
     let mut churn = case.churn.clone();
     churn.resize(clients.len(), Vec::new());
     let spec = RunSpec {
